@@ -122,14 +122,14 @@ PROPS = {
     ),
     "C16": dict(
         design_ref="DESIGN.md 5.16",
-        level_text="Coq theorems over the executable parser model, for all inputs (valid or malformed), modes, interceptors and operators: every statement and expression parse step leaves the context stack exactly as it found it, and after ParseProgram the stack is [Global] (CurrentContext = Global, IsInFunction = false). The per-token nesting clause is explored by the oracle with probe interceptors against the reference unparser's nesting; the recorded finding KF8 (function bodies answer Block) is reported there.",
+        level_text="Coq theorems over the executable parser model. For all inputs (valid or malformed), modes, interceptors and operators: every statement and expression parse step leaves the context stack exactly as it found it, and after ParseProgram the stack is [Global]. NESTING (C16_reflects_nesting, NestProofs.v), for every program of the grammar and any lists of pass-through, probe and re-entrant interceptors: at EVERY interceptor invocation the answers equal the syntactic nesting that NestSpec.v assigns to the current token - IsInFunction = the token is inside a function body (declaration or expression, at any depth), CurrentContext = Global outside every brace block and Block inside one; tokens of a lexed source are pairwise distinct, so the nesting of a token is unique. The property's wording expects Function for a token directly inside a function body; the code answers Block there: recorded finding KF8, reported by the oracle (probes asking everywhere or selectively against the reference unparser's nesting record).",
         level_note="Trusted: Coq kernel, translator xjs2v (context constants, tables), extraction, harness/driver correspondence (icept suite compares the probes' CurrentContext/IsInFunction log and the final context). Modelled not verified: parser control flow incl. the deferred pops.",
         technique="Coq proof (balance invariant by induction on fuel) + model/implementation correspondence",
         suites=[dict(suite="icept", n_quick=3000, n_thorough=100000, what="sources x interceptor lists: tree, errors, final context, probe log (token, CurrentContext, IsInFunction)",
                      projection=POS_FREE)],
         oracle_n_quick=1500, oracle_n_thorough=50000,
-        explanation="C16: C16_balanced_stmt, C16_balanced_expr, C16_final_top.",
-        open_statements=["C16_reflects_nesting (probe answers equal the syntactic nesting per token): explored by the oracle; false on the unchanged tree for function bodies (KF8)"],
+        explanation="C16: C16_balanced_stmt, C16_balanced_expr, C16_final_top, C16_reflects_nesting, C16_lexed_tokens_distinct.",
+        open_statements=["CurrentContext = Function for tokens directly inside a function body: false on the unchanged tree (KF8); proved instead: it is Block there"],
     ),
     "C04": dict(
         design_ref="DESIGN.md 5.4",
